@@ -4,7 +4,7 @@
     EVERY command what the implementation shows; [check] replays the history
     on the model and compares step by step. *)
 From Coq Require Import Strings.Byte.
-From CSS Require Import Lib.Base Lib.Cases Model.TPM Model.TPMSlices.
+From CSS Require Import Lib.Base Lib.Cases Model.TPM Model.TPMSlices Model.TPMPool.
 
 (** * Packed byte-string literals
 
@@ -65,7 +65,17 @@ Inductive sobs : Type :=
     earlier cases and the history starts with Reset/ResetNoInit -- whose effect
     does not depend on the state, so the model may start from [fresh] as well. *)
 Inductive case : Type :=
-| CHist (tbl : hash_table) (steps : list (cmd * sobs)).
+| CHist (tbl : hash_table) (steps : list (cmd * sobs))
+(** Several TPM objects driven at the same time, each by its own goroutine, all
+    of them sharing the pool of hashers.  [objs]: per object its history with
+    what the driving goroutine saw after every command (as in [CHist]).
+    [hs]: the hashers handed out by the pool that existed before the case
+    (algorithm, bytes written into them since their last Reset, as counted by
+    the instrumented hash).  [trace]: for a run under the harness' deterministic
+    scheduler, the hasher operations of all objects in the order in which they
+    happened; [None] for a run with really parallel goroutines. *)
+| CConc (tbl : hash_table) (hs : list (Z * list Z)) (objs : list (list (cmd * sobs)))
+        (trace : option (list tev)).
 
 Definition unit_eqb (_ _ : unit) : bool := true.
 
@@ -157,9 +167,57 @@ Fixpoint scheck_steps (H : Z -> list Z -> list Z) (s : sstate) (steps : list (cm
       step_matches (abs s) (abs s') r o && scheck_steps H s' t
   end.
 
+Definition state_eqb (s1 s2 : state) : bool :=
+  zlist_eqb (algos s1) (algos s2)
+  && list_eqb (list_eqb zlist_eqb) (pcrs s1) (pcrs s2)
+  && list_eqb cmd_eqb (cmdlog s1) (cmdlog s2)
+  && list_eqb event_eqb (evlog s1) (evlog s2).
+
+Fixpoint res_match (steps : list (cmd * sobs)) (rs : list (outcome unit)) : bool :=
+  match steps, rs with
+  | [], [] => true
+  | (_, SO r' _ _ _ _ _) :: t, r :: rt => obs_match unit_eqb r' r && res_match t rt
+  | _, _ => false
+  end.
+
+(** object [j] of the final world of the pool model has run its whole history
+    and is where the value model is after the same history *)
+Fixpoint actors_done (H : Z -> list Z -> list Z) (w : world) (j : nat)
+         (objs : list (list (cmd * sobs))) : bool :=
+  match objs with
+  | [] => true
+  | steps :: t =>
+      let a := w_act w j in
+      match a_ph a, a_todo a with
+      | Idle, [] =>
+          state_eqb (a_obj a) (run H fresh (map fst steps)) && res_match steps (a_res a)
+      | _, _ => false
+      end && actors_done H w (S j) t
+  end.
+
+(** [CConc]: (1) every object, looked at alone, matches the value model and the
+    buffer model run on ITS history (what theorem C02_pool_independent says must
+    hold under every schedule); (2) the pooled hashers found were reset
+    (the invariant of that theorem); (3) the recorded trace is a run of the
+    pool model, i.e. the implementation touched the hashers in the way and in
+    the order the model does, every hasher the pool handed out was lying in the
+    model's pool, and the model ends where the value model ends. *)
 Definition check (c : case) : bool :=
   match c with
   | CHist tbl steps => check_steps (H_tbl tbl) fresh steps && scheck_steps (H_tbl tbl) snew steps
+  | CConc tbl hs objs trace =>
+      let H := H_tbl tbl in
+      let hs' := map (fun x => mkHs (fst x) (snd x)) hs in
+      forallb (fun steps => check_steps H fresh steps && scheck_steps H snew steps) objs
+      && pool_reset hs'
+      && match trace with
+         | None => true
+         | Some tr =>
+             match replay H (init_world (map (fun steps => idle_actor fresh (map fst steps)) objs) hs') tr with
+             | Some w' => actors_done H w' 0 objs
+             | None => false
+             end
+         end
   end.
 
 Definition mismatches := mismatches_by check.
